@@ -326,6 +326,7 @@ TrialEnd(r, e) ==
         <<"P:C08", "deadline.notaccepted", inner[r].dl => e.kind # "accept">>,
         <<"P:C07", "accept.neverfailed", e.kind = "accept" => ~(\E b \in bad[r] : b[1] = e.ptx)>>,
         <<"P:C05", "accept.inbox", e.kind = "accept" => e.inbox>>,
+        <<"P:C15", "accepted.step.in.box", e.kind = "accept" => e.inbox>>,
         <<"P:C15", "exact.solves", (e.kind = "accept" /\ cfg[r].ctl = "Exact") => e.resClass = "le">>
      >>)
   /\ orc' = IF byDeadline \/ NoMemo(r) THEN orc ELSE Memo(q, a)
@@ -511,7 +512,7 @@ Raise(r, e) ==
         <<"P:C07", "rcond.fault.survived", (pc[r] \in {"InTrial", "Post"} /\ inner[r].rcf) => e.kind \in DeliberateErrs>>,
         <<"P:C03", "wellposed.no.raise", ~cfg[r].wellposed>>,
         <<"P:C08", "deadline.never.raises", (dlx[r] /\ cfg[r].twin = "C08") => twinAlsoAborts>>,
-        <<"P:C09", "observer.never.raises", e.kind \notin DeliberateErrs => ~(cfg[r].debug \/ disp[r])>>,
+        <<"P:C09", "observer.never.raises", e.kind \notin DeliberateErrs => (~(cfg[r].debug \/ disp[r]) \/ q \in DOMAIN orc)>>,
         <<"P:C11", "raise.callerdata", e.changed = <<>>>>
      >>)
   /\ orc' = IF NoMemo(r) THEN orc ELSE Memo(q, e.kind)
